@@ -34,7 +34,7 @@ func init() {
 	wExtra = append(wExtra, &hysim.Harness{Name: "c10", Gen: genC10, Exec: execC10, LeakOK: true, Isolate: true})
 }
 
-var c10Lattice = []uint64{0, 65536, 65537, 300000, 1500000, 1 << 40, math.MaxUint64}
+var c10Lattice = []uint64{0, 65536, 65537, 300000, 1500000, 1 << 40, math.MaxUint64, 1000, 20000, 65535}
 
 var c10Headers = []string{"<missing>", "", "abc", "-5", "1e6", "18446744073709551616", "99999999999999999999999999", " 100000", "100000 ", "0x10000", "+70000", "auto", "AUTO", "70000", "0", "18446744073709551615", "65536", "1.5"}
 
@@ -43,8 +43,11 @@ var c10Cong = [][2]string{{"", ""}, {"bbr", ""}, {"bbr", "standard"}, {"bbr", "c
 func genC10(r *hysim.Rand, tier string) *hysim.Script {
 	sc := &hysim.Script{Cfg: map[string]int64{}}
 	sc.Cfg["pairing"] = int64(r.Pick(0, 0, 0, 1, 2))
-	for _, k := range []string{"c_tx", "c_rx", "s_tx", "s_rx"} {
+	for _, k := range []string{"c_tx", "c_rx"} {
 		sc.Cfg[k] = int64(r.Intn(len(c10Lattice)))
+	}
+	for _, k := range []string{"s_tx", "s_rx"} {
+		sc.Cfg[k] = int64(r.Intn(7)) // (a server's own limits below 64 KB/s are refused by its configuration check)
 	}
 	sc.Cfg["ignore"] = int64(r.Pick(0, 0, 0, 1))
 	sc.Cfg["c_cong"] = int64(r.Intn(len(c10Cong)))
@@ -119,6 +122,12 @@ func execC10(x *hysim.Run) {
 	w := newWorld(x, linkFromScript(sc))
 	lat := func(k string) uint64 { return c10Lattice[int(clamp(sc.Get(k, 0), 0, int64(len(c10Lattice)-1)))] }
 	cTx, cRx, sTx, sRx := lat("c_tx"), lat("c_rx"), lat("s_tx"), lat("s_rx")
+	if sTx != 0 && sTx < 65536 {
+		sTx = 65536 // (minimised scripts: the server refuses smaller own limits at start-up)
+	}
+	if sRx != 0 && sRx < 65536 {
+		sRx = 65536
+	}
 	ignore := sc.Get("ignore", 0) == 1
 	cCong := c10Cong[int(clamp(sc.Get("c_cong", 0), 0, int64(len(c10Cong)-1)))]
 	sCong := c10Cong[int(clamp(sc.Get("s_cong", 0), 0, int64(len(c10Cong)-1)))]
@@ -463,10 +472,12 @@ func c10Wire(x *hysim.Run, w *wWorld, cl client.Client, f *wConnFactory, clientT
 		from string
 	}
 	var dirs []dirT
-	if clientTx >= 65536 && clientTx <= maxRate {
+	// (a peer may declare less than the 64 KB/s a server accepts for itself: those rates are only
+	// judged from above - a few datagrams per second are too coarse for a lower bound)
+	if clientTx >= 1000 && clientTx <= maxRate {
 		dirs = append(dirs, dirT{"client->server", clientTx, f.eps[0].LocalAddr().String()})
 	}
-	if serverTx >= 65536 && serverTx <= maxRate {
+	if serverTx >= 1000 && serverTx <= maxRate {
 		dirs = append(dirs, dirT{"server->client", serverTx, "10.0.0.1:443"})
 	}
 	for _, d := range dirs {
@@ -483,7 +494,7 @@ func c10Wire(x *hysim.Run, w *wWorld, cl client.Client, f *wConnFactory, clientT
 			}
 		}
 		up := d.name == "client->server"
-		total := int64(d.rate) * 3
+		total := max(int64(d.rate)*3, 400000) // stays backlogged for the whole window whatever rate is enforced
 		w.onTCP = func(reqAddr string, seq uint64) (net.Conn, error) {
 			t := w.newTarget(reqAddr, simnet.StreamCfg{BufBytes: 1 << 20})
 			hysim.Go("harness:wire-target", func() {
@@ -576,7 +587,7 @@ func c10Wire(x *hysim.Run, w *wWorld, cl client.Client, f *wConnFactory, clientT
 		x.Ev("wire %s: %d bytes in %.1fs at reported rate %d (bounds %.0f..%.0f)", d.name, bytes, win, d.rate, lower, upper)
 		if float64(bytes) > upper {
 			x.Violate("wire-rate-exceeded", "%s: %d bytes left the sender in %.1f s although the reported fixed rate is %d B/s (bound %.0f incl. burst and loss-compensation headroom)", d.name, bytes, win, d.rate, upper)
-		} else if float64(bytes) < lower {
+		} else if float64(bytes) < lower && d.rate >= 65536 {
 			x.Violate("wire-rate-far-below", "%s: only %d bytes left the sender in %.1f s of bulk transfer although the reported fixed rate is %d B/s", d.name, bytes, win, d.rate)
 		} else {
 			x.Probe("wire-rate-measured")
